@@ -35,6 +35,10 @@ Definition response_empty_body_rule_is_status_or_head : bool := true.
    ClientPayloadError (no write_eof) when the body source ended short of the declared Content-Length *)
 Definition client_counts_declared_length : bool := true.
 
+(* ClientRequest._should_write: body.size != 0 [or the head carries a Content-Length other than "0"] (or Expect /
+   paused transport, not modelled) *)
+Definition should_write_on_declared_length : bool := true.
+
 (* ClientRequest._write_bytes: writer.write_eof() runs only in the `else:` of the try around the body write,
    i.e. not after a handled OSError / Exception of the body source *)
 Definition write_eof_only_after_success : bool := true.
